@@ -25,8 +25,8 @@ ASSUMPTIONS = ['numpy comparison semantics: every ordered comparison with '
 
 
 def check(ctx):
-    stats.check_student(ctx)
-    dataset.check_quad(ctx, kinds=('sub',))
+    ctx.run(stats.check_student)
+    ctx.run(dataset.check_quad, kinds=('sub',))
 
 
 def variants(program):
